@@ -107,7 +107,7 @@ enum Op {
     Restart,
     /// stale: roll the parent's sidecar back by k lines before the call (the cache is removed afterwards)
     /// bundle_fail: the artifact store is made unwritable for the duration of the call
-    Call { kind: Kind, th: usize, sel: Sel, stale: Option<usize>, bundle_fail: bool, md: Md },
+    Call { kind: Kind, th: usize, sel: Sel, stale: Option<usize>, bundle_fail: bool, md: Md, http: bool },
 }
 
 #[derive(Default)]
@@ -171,6 +171,10 @@ fn blobs_dir(env: &Env) -> std::path::PathBuf {
 }
 
 fn err_code(e: &str) -> u64 {
+    if let Some(st) = e.strip_prefix("http status ") {
+        // a call made through POST /threads/{id}/branch|handoff: only the status is visible
+        return st.trim().parse().unwrap_or(99);
+    }
     if e.contains("requires only one of") {
         1
     } else if e.contains("continuity stream does not exist") {
@@ -231,6 +235,61 @@ fn resolve_mref(stream: &[&Hdr], m: MRef) -> String {
     }
 }
 
+/// the same call through the real router: POST /threads/{id}/branch | /threads/{id}/handoff on a fresh
+/// application over the same data dir and workspace.  Ok = 201 with the response body (which must name
+/// the requested parent), Err = "http status <code>".
+#[allow(clippy::too_many_arguments)]
+fn http_call(data_dir: &std::path::Path, ws: &std::path::Path, kind: Kind, parent: &str, from_mid: Option<String>, from_seq: Option<u64>, md: Option<String>, art: Option<String>) -> Result<(String, u64, Option<String>), String> {
+    use http_body_util::BodyExt;
+    use tower::ServiceExt;
+    let rt = tokio::runtime::Builder::new_current_thread().enable_all().build().map_err(|e| e.to_string())?;
+    let app = {
+        let _g = rt.enter();
+        ripd::verif::build_app(data_dir.to_path_buf(), ws.to_path_buf(), None)
+    };
+    let mut body = serde_json::Map::new();
+    if let Some(m) = from_mid {
+        body.insert("from_message_id".into(), json!(m));
+    }
+    if let Some(n) = from_seq {
+        body.insert("from_seq".into(), json!(n));
+    }
+    body.insert("actor_id".into(), json!("user"));
+    body.insert("origin".into(), json!("harness"));
+    let (uri, parent_key, seq_key, mid_key) = match kind {
+        Kind::Branch => {
+            body.insert("title".into(), json!("child"));
+            (format!("/threads/{parent}/branch"), "parent_thread_id", "parent_seq", "parent_message_id")
+        }
+        Kind::Handoff(_) => {
+            if let Some(m) = md {
+                body.insert("summary_markdown".into(), json!(m));
+            }
+            if let Some(a) = art {
+                body.insert("summary_artifact_id".into(), json!(a));
+            }
+            (format!("/threads/{parent}/handoff"), "from_thread_id", "from_seq", "from_message_id")
+        }
+    };
+    let req = axum::http::Request::builder().method("POST").uri(uri).header("content-type", "application/json").body(axum::body::Body::from(serde_json::Value::Object(body).to_string())).map_err(|e| e.to_string())?;
+    let (st, v) = rt.block_on(async {
+        let resp = app.clone().oneshot(req).await.expect("infallible");
+        let st = resp.status().as_u16();
+        let bytes = resp.into_body().collect().await.map(|b| b.to_bytes()).unwrap_or_default();
+        (st, serde_json::from_slice::<serde_json::Value>(&bytes).unwrap_or(serde_json::Value::Null))
+    });
+    drop(app);
+    drop(rt);
+    if st != 201 {
+        return Err(format!("http status {st}"));
+    }
+    let child = v["thread_id"].as_str().unwrap_or("").to_string();
+    if v[parent_key].as_str() != Some(parent) {
+        return Err(format!("http response names parent {:?}, requested {parent}", v[parent_key]));
+    }
+    Ok((child, v[seq_key].as_u64().unwrap_or(u64::MAX), v[mid_key].as_str().map(|s| s.to_string())))
+}
+
 /// check_art: whether the implementation is expected to test a caller-given artifact id (after the repair)
 fn run_case(ops: &[Op], check_art: bool) -> Outcome {
     let scratch = Scratch::new("c10");
@@ -276,8 +335,8 @@ fn run_case(ops: &[Op], check_art: bool) -> Outcome {
                 apply_fault(&env, &tid(*th), *x);
             }
             Op::Restart => env.restart(),
-            Op::Call { kind, th, sel, stale, bundle_fail, md } => {
-                do_call(&mut env, &hs, &before, *kind, *th, *sel, *stale, *bundle_fail, *md, check_art, &mut known_artifacts, &mut out, ops);
+            Op::Call { kind, th, sel, stale, bundle_fail, md, http } => {
+                do_call(&mut env, &hs, &before, *kind, *th, *sel, *stale, *bundle_fail, *md, *http, check_art, &mut known_artifacts, &mut out, ops);
             }
         }
     }
@@ -286,7 +345,7 @@ fn run_case(ops: &[Op], check_art: bool) -> Outcome {
 }
 
 #[allow(clippy::too_many_arguments)]
-fn do_call(env: &mut Env, hs: &[Hdr], before: &[u8], kind: Kind, th: usize, sel: Sel, stale: Option<usize>, bundle_fail: bool, mdv: Md, check_art: bool, known_artifacts: &mut Vec<String>, out: &mut Outcome, ops: &[Op]) {
+fn do_call(env: &mut Env, hs: &[Hdr], before: &[u8], kind: Kind, th: usize, sel: Sel, stale: Option<usize>, bundle_fail: bool, mdv: Md, http: bool, check_art: bool, known_artifacts: &mut Vec<String>, out: &mut Outcome, ops: &[Op]) {
     let ids = created_ids(hs);
     let parent = pick_thread(&ids, th);
     let truth = cont_stream(hs, &parent);
@@ -377,10 +436,21 @@ fn do_call(env: &mut Env, hs: &[Hdr], before: &[u8], kind: Kind, th: usize, sel:
     // ---- the call
     let store = env.store.clone();
     let (p2, fm2, md2, art2) = (parent.clone(), from_mid.clone(), md.clone(), art.clone());
-    let res = std::panic::catch_unwind(std::panic::AssertUnwindSafe(move || match kind {
-        Kind::Branch => store.branch(&p2, Some("child".into()), fm2, from_seq, "user".into(), "harness".into()),
-        Kind::Handoff(_) => store.handoff(&p2, None, (md2, art2), fm2, from_seq, ("user".into(), "harness".into())),
+    let (data_dir, ws_dir) = (env.data_dir.clone(), env.ws.clone());
+    let res = std::panic::catch_unwind(std::panic::AssertUnwindSafe(move || {
+        if http {
+            return http_call(&data_dir, &ws_dir, kind, &p2, fm2, from_seq, md2, art2);
+        }
+        match kind {
+            Kind::Branch => store.branch(&p2, Some("child".into()), fm2, from_seq, "user".into(), "harness".into()),
+            Kind::Handoff(_) => store.handoff(&p2, None, (md2, art2), fm2, from_seq, ("user".into(), "harness".into())),
+        }
     }));
+    if http {
+        // the router ran on its own store instance over the same files: the harness's instance re-reads them
+        env.restart();
+        out.dist.push("via_http_router".into());
+    }
     if bundle_fail {
         let _ = std::fs::remove_file(&arts_root);
         if parked.exists() {
@@ -426,7 +496,7 @@ fn do_call(env: &mut Env, hs: &[Hdr], before: &[u8], kind: Kind, th: usize, sel:
     match &res {
         Err(e) => {
             if !added.is_empty() {
-                let class = if bundle_fail && err_code(e) == 6 { "failed_handoff_left_orphan_thread" } else { "failing_call_wrote_frames" };
+                let class = if bundle_fail && (err_code(e) == 6 || err_code(e) == 500) { "failed_handoff_left_orphan_thread" } else { "failing_call_wrote_frames" };
                 viol!(format!("{kind:?} failed ({e}) but appended {} frame(s)", added.len()), class);
             }
             // a selector that lies within the source thread as it is, with an acceptable summary, must be served
@@ -611,6 +681,7 @@ fn do_call(env: &mut Env, hs: &[Hdr], before: &[u8], kind: Kind, th: usize, sel:
     };
     let mut exp: Vec<u64> = vec![];
     match &res {
+        // through the router only the status is visible (Model/Lineage.v http_status)
         Err(e) => exp.extend([0, err_code(e)]),
         Ok((child, cut, mid)) => exp.extend([1, it.get(child), *cut, opt(mid.as_ref().map(|m| it.get(m)))]),
     }
@@ -645,11 +716,13 @@ fn do_call(env: &mut Env, hs: &[Hdr], before: &[u8], kind: Kind, th: usize, sel:
     );
     let _ = ops;
     let desc = json!({
-        "call": format!("{kind:?} th={th} sel={sel:?} stale={stale:?} bundle_fail={bundle_fail} md={mdv:?}"),
+        "call": format!("{kind:?} th={th} sel={sel:?} stale={stale:?} bundle_fail={bundle_fail} md={mdv:?} http={http}"),
         "parent_frames": truth.iter().map(|h| format!("{}:{}", h.seq, ETYPES[h.code as usize])).collect::<Vec<_>>(),
         "from_message_id": from_mid, "from_seq": from_seq,
         "result": match &res { Ok((_, c, m)) => json!({"cut": c, "message_id": m}), Err(e) => json!({"err": e}) },
     });
+    let mut desc = desc;
+    desc["http"] = json!(http);
     out.terms.push((term, desc));
     out.dist.push(format!("kind={}", if is_handoff { "handoff" } else { "branch" }));
     out.dist.push(format!(
@@ -719,7 +792,9 @@ fn gen_call(r: &mut Rng, threads: usize, focus: usize) -> Op {
     } else {
         Md::Normal
     };
-    Op::Call { kind, th, sel: gen_sel(r), stale, bundle_fail, md }
+    // one call in six goes through the HTTP router (POST /threads/{id}/branch|handoff)
+    let http = r.chance(1, 6);
+    Op::Call { kind, th, sel: gen_sel(r), stale, bundle_fail, md, http }
 }
 fn gen_case(r: &mut Rng, long: bool) -> Vec<Op> {
     let n = if long { r.range(25, 45) } else { r.range(4, 18) };
@@ -754,7 +829,7 @@ fn gen_case(r: &mut Rng, long: bool) -> Vec<Op> {
 
 /// fixed cases that always run first (documented in corpus/C10/*.json)
 fn corpus() -> Vec<Vec<Op>> {
-    let call = |kind, sel| Op::Call { kind, th: 0, sel, stale: None, bundle_fail: false, md: Md::Normal };
+    let call = |kind, sel| Op::Call { kind, th: 0, sel, stale: None, bundle_fail: false, md: Md::Normal, http: false };
     let mut every = vec![Op::Msg { th: 0 }, Op::RunSpawned { th: 0, m: MRef::Known(0) }, Op::Msg { th: 0 }, Op::RunEnded { th: 0, m: MRef::Known(0) }, Op::Msg { th: 0 }, Op::ToolFx { th: 0 }];
     for sel in [
         Sel::None, Sel::Seq(SeqSel::Zero), Sel::Seq(SeqSel::Mid(3)), Sel::Seq(SeqSel::Head), Sel::Seq(SeqSel::HeadPlus(0)), Sel::Seq(SeqSel::Max),
@@ -776,7 +851,7 @@ fn corpus() -> Vec<Vec<Op>> {
             call(Kind::Handoff(Summary::BothExisting), Sel::None),
             call(Kind::Handoff(Summary::BothUnknown), Sel::None),
             call(Kind::Handoff(Summary::Neither), Sel::None),
-            Op::Call { kind: Kind::Handoff(Summary::Markdown), th: 0, sel: Sel::None, stale: None, bundle_fail: true, md: Md::Normal },
+            Op::Call { kind: Kind::Handoff(Summary::Markdown), th: 0, sel: Sel::None, stale: None, bundle_fail: true, md: Md::Normal, http: false },
         ],
         // overlapping turns (POST /threads/{id}/messages returns 202 before the run ends): the run frames of a
         // message stand AFTER later messages; from_message_id must still reach the end of its run
@@ -790,34 +865,55 @@ fn corpus() -> Vec<Vec<Op>> {
             }
             v
         },
+        // the same calls through the HTTP router (server.rs passes the body through and maps errors to a status)
+        {
+            let h = |kind, sel, md| Op::Call { kind, th: 0, sel, stale: None, bundle_fail: false, md, http: true };
+            let mut v = vec![Op::Msg { th: 0 }, Op::RunSpawned { th: 0, m: MRef::Known(0) }, Op::Msg { th: 0 }, Op::RunEnded { th: 0, m: MRef::Known(0) }, Op::Msg { th: 0 }];
+            for sel in [Sel::None, Sel::Seq(SeqSel::Mid(2)), Sel::Seq(SeqSel::HeadPlus(0)), Sel::Msg(MsgSel::First), Sel::Msg(MsgSel::Unknown), Sel::Msg(MsgSel::RunFrame), Sel::Both] {
+                v.push(h(Kind::Branch, sel, Md::Normal));
+                v.push(h(Kind::Handoff(Summary::Markdown), sel, Md::Normal));
+            }
+            for s in [Summary::ArtifactExisting, Summary::ArtifactUnknown, Summary::BothExisting, Summary::BothUnknown, Summary::Neither] {
+                v.push(h(Kind::Handoff(s), Sel::Msg(MsgSel::First), Md::Normal));
+            }
+            v.push(h(Kind::Handoff(Summary::Markdown), Sel::None, Md::Empty));
+            v.push(h(Kind::Handoff(Summary::Markdown), Sel::None, Md::UnicodeBlank));
+            v.push(Op::Call { kind: Kind::Handoff(Summary::Markdown), th: 0, sel: Sel::None, stale: None, bundle_fail: true, md: Md::Normal, http: true });
+            v.push(Op::Call { kind: Kind::Branch, th: 1000, sel: Sel::None, stale: None, bundle_fail: false, md: Md::Normal, http: true });
+            // the harness's own store instance goes on after the router's wrote
+            v.push(Op::Msg { th: 0 });
+            v.push(Op::Msg { th: 1 });
+            v.push(Op::Call { kind: Kind::Branch, th: 1, sel: Sel::None, stale: None, bundle_fail: false, md: Md::Normal, http: false });
+            v
+        },
         // the TEXT of the summary: empty, blank in several ways, invisible, long - alone, next to an existing
         // artifact id, next to an unknown one; every accepted handoff must name a bundle that reads back
         {
             let mut v = vec![Op::Msg { th: 0 }, Op::RunSpawned { th: 0, m: MRef::Known(0) }, Op::RunEnded { th: 0, m: MRef::Known(0) }, Op::Msg { th: 0 }];
             for md in [Md::Empty, Md::Space, Md::Newline, Md::Ws, Md::UnicodeBlank, Md::ZeroWidth, Md::Long, Md::LongBlank] {
-                v.push(Op::Call { kind: Kind::Handoff(Summary::Markdown), th: 0, sel: Sel::None, stale: None, bundle_fail: false, md });
+                v.push(Op::Call { kind: Kind::Handoff(Summary::Markdown), th: 0, sel: Sel::None, stale: None, bundle_fail: false, md, http: false });
             }
             for md in [Md::Empty, Md::Ws, Md::UnicodeBlank] {
-                v.push(Op::Call { kind: Kind::Handoff(Summary::BothExisting), th: 0, sel: Sel::Msg(MsgSel::First), stale: None, bundle_fail: false, md });
-                v.push(Op::Call { kind: Kind::Handoff(Summary::BothUnknown), th: 0, sel: Sel::Seq(SeqSel::Mid(2)), stale: None, bundle_fail: false, md });
-                v.push(Op::Call { kind: Kind::Handoff(Summary::Markdown), th: 0, sel: Sel::Seq(SeqSel::Zero), stale: None, bundle_fail: false, md });
+                v.push(Op::Call { kind: Kind::Handoff(Summary::BothExisting), th: 0, sel: Sel::Msg(MsgSel::First), stale: None, bundle_fail: false, md, http: false });
+                v.push(Op::Call { kind: Kind::Handoff(Summary::BothUnknown), th: 0, sel: Sel::Seq(SeqSel::Mid(2)), stale: None, bundle_fail: false, md, http: false });
+                v.push(Op::Call { kind: Kind::Handoff(Summary::Markdown), th: 0, sel: Sel::Seq(SeqSel::Zero), stale: None, bundle_fail: false, md, http: false });
             }
-            v.push(Op::Call { kind: Kind::Handoff(Summary::Markdown), th: 0, sel: Sel::None, stale: None, bundle_fail: true, md: Md::Empty });
+            v.push(Op::Call { kind: Kind::Handoff(Summary::Markdown), th: 0, sel: Sel::None, stale: None, bundle_fail: true, md: Md::Empty, http: false });
             v
         },
         // parent with only its creation frame; unknown parent; branch of a branch; handoff of a branch
         vec![
             call(Kind::Branch, Sel::None),
-            Op::Call { kind: Kind::Branch, th: 1000, sel: Sel::None, stale: None, bundle_fail: false, md: Md::Normal },
-            Op::Call { kind: Kind::Branch, th: 1, sel: Sel::None, stale: None, bundle_fail: false, md: Md::Normal },
+            Op::Call { kind: Kind::Branch, th: 1000, sel: Sel::None, stale: None, bundle_fail: false, md: Md::Normal, http: false },
+            Op::Call { kind: Kind::Branch, th: 1, sel: Sel::None, stale: None, bundle_fail: false, md: Md::Normal, http: false },
             Op::Msg { th: 1 },
-            Op::Call { kind: Kind::Handoff(Summary::Markdown), th: 1, sel: Sel::Msg(MsgSel::Last), stale: None, bundle_fail: false, md: Md::Normal },
-            Op::Call { kind: Kind::Branch, th: 2, sel: Sel::Seq(SeqSel::Head), stale: None, bundle_fail: false, md: Md::Normal },
+            Op::Call { kind: Kind::Handoff(Summary::Markdown), th: 1, sel: Sel::Msg(MsgSel::Last), stale: None, bundle_fail: false, md: Md::Normal, http: false },
+            Op::Call { kind: Kind::Branch, th: 2, sel: Sel::Seq(SeqSel::Head), stale: None, bundle_fail: false, md: Md::Normal, http: false },
         ],
         // run frames naming a message that does not exist / the empty string, then selecting exactly that id
         vec![Op::Msg { th: 0 }, Op::RunSpawned { th: 0, m: MRef::Ghost(0) }, Op::RunEnded { th: 0, m: MRef::Empty }, Op::Msg { th: 0 }, Op::RunEnded { th: 0, m: MRef::Known(0) }, call(Kind::Branch, Sel::Msg(MsgSel::Ghost(0))), call(Kind::Branch, Sel::Msg(MsgSel::Empty)), call(Kind::Branch, Sel::Msg(MsgSel::First))],
         // faults + restart on the parent, stale sidecar view
-        vec![Op::Msg { th: 0 }, Op::Msg { th: 0 }, Op::Fault { th: 0, x: Fault::TearTail }, call(Kind::Branch, Sel::None), Op::Fault { th: 0, x: Fault::Delete }, Op::Restart, call(Kind::Handoff(Summary::Markdown), Sel::Seq(SeqSel::Head)), Op::Call { kind: Kind::Branch, th: 0, sel: Sel::None, stale: Some(1), bundle_fail: false, md: Md::Normal }, Op::Msg { th: 0 }, call(Kind::Branch, Sel::None)],
+        vec![Op::Msg { th: 0 }, Op::Msg { th: 0 }, Op::Fault { th: 0, x: Fault::TearTail }, call(Kind::Branch, Sel::None), Op::Fault { th: 0, x: Fault::Delete }, Op::Restart, call(Kind::Handoff(Summary::Markdown), Sel::Seq(SeqSel::Head)), Op::Call { kind: Kind::Branch, th: 0, sel: Sel::None, stale: Some(1), bundle_fail: false, md: Md::Normal, http: false }, Op::Msg { th: 0 }, call(Kind::Branch, Sel::None)],
     ]
 }
 
@@ -829,6 +925,8 @@ fn main() {
     let n = if a.thorough() { 3600 } else { 100 };
     let mut r = Rng::new(a.seed);
     let mut w = CaseWriter::new(&a.out, "Model.Frames Model.Log Model.Lineage", "check_case", "model_obs", 40);
+    // calls made through the HTTP router: the result is compared as the response status (check_case_http)
+    let mut wh = CaseWriter::new(&a.out.join("http"), "Model.Frames Model.Log Model.Lineage", "check_case_http", "model_obs_http", 40).with_base(1_000_000);
     let mut distinct = Distinct::default();
     let mut all: Vec<Vec<Op>> = corpus();
     for i in 0..n {
@@ -862,7 +960,7 @@ fn main() {
                 }
                 for (k, (term, desc)) in o.terms.iter().enumerate() {
                     if !a.oracle_only() {
-                        let id = w.push(term.clone());
+                        let id = if desc["http"] == json!(true) { wh.push(term.clone()) } else { w.push(term.clone()) };
                         if res.case_index.len() < 4000 {
                             res.case_index.insert(id.to_string(), json!({"history": ops.iter().map(|o| format!("{o:?}")).collect::<Vec<_>>(), "call_index": k, "call": desc}));
                         }
@@ -880,8 +978,9 @@ fn main() {
         }
     }
     w.flush();
+    wh.flush();
     res.distinct_nontrivial = distinct.count();
-    res.case_files = w.files.iter().map(|p| p.display().to_string()).collect();
+    res.case_files = w.files.iter().chain(wh.files.iter()).map(|p| p.display().to_string()).collect();
     res.write(&a.out);
     println!("c10: {} calls in {} histories, {} oracle checks, {} oracle violations, {} panics", res.evaluations, all.len(), res.oracle_checks, res.oracle_violations.len(), res.impl_panics);
 }
